@@ -705,6 +705,14 @@ pub fn c29(ctx: &mut Ctx) {
         c29_case,
     );
     ctx.expect_labels("hooks", &["inspector-override", "call-without-frame", "log", "create"]);
+    ctx.run_cases(
+        "eof-hooks",
+        "OSAKA: generated valid EOF containers (EXT*CALL to EOF / legacy / empty / precompile targets incl. rejected ones, EOFCREATE with endowments 0 / 1 / more than the balance so that some are rejected before a frame exists, RETURNCONTRACT, create transactions with EOF initcode) under the recording inspector: every call / create / eofcreate start is closed by exactly one end of the same kind with equal inputs in LIFO order, step/step_end alternate, nothing stays open; a panic inside the inspector handler register is a violation; non-trivial = an EXT*CALL or EOFCREATE was executed",
+        crate::eofcheck::built_strategy,
+        ctx.tier.pick(40_000, 800_000),
+        crate::eofcheck::c29_eof_case,
+    );
+    ctx.expect_labels("eof-hooks", &["ran:EOFCREATE", "ran:EXTCALL", "ran:RETURNCONTRACT"]);
 }
 
 pub fn c30_case(case: &WorldCase) -> CaseResult {
